@@ -56,7 +56,10 @@ def build_vh(tags=("verif",), race=False):
 
 
 def run(cmd, cwd=None, timeout=None, env=None, check=True):
-    p = subprocess.run(cmd, cwd=cwd, env=env or GOENV, stdout=subprocess.PIPE, stderr=subprocess.PIPE, text=True, timeout=timeout)
+    try:
+        p = subprocess.run(cmd, cwd=cwd, env=env or GOENV, stdout=subprocess.PIPE, stderr=subprocess.PIPE, text=True, timeout=timeout)
+    except subprocess.TimeoutExpired:
+        raise Inconclusive("command timed out after %ss: %s" % (timeout, " ".join(cmd)))
     if check and p.returncode != 0:
         raise Inconclusive("command failed (%d): %s\n%s\n%s" % (p.returncode, " ".join(cmd), p.stdout[-2000:], p.stderr[-3000:]))
     return p
@@ -115,6 +118,28 @@ def parallel(fn, items, jobs=None):
     jobs = jobs or max(1, min(len(items), NCPU // 2))
     with concurrent.futures.ThreadPoolExecutor(max_workers=jobs) as ex:
         return list(ex.map(fn, items))
+
+
+def parallel_jobs(check, fn, items, jobs=None):
+    """Like parallel, for independent jobs exploring the same property: a job that dies (driver crash, hang, timeout)
+    is inconclusive on its own, but does not hide a violation that another job established on the real code."""
+    dead = []
+
+    def guarded(it):
+        try:
+            return fn(it)
+        except Inconclusive as e:
+            dead.append(str(e))
+            return None
+    out = parallel(guarded, items, jobs=jobs)
+    if dead and not check.violations:
+        raise Inconclusive(dead[0])
+    for d in dead:
+        log("[job inconclusive, verdict rests on the other jobs] " + d[:300])
+    if dead:
+        check.coverage.setdefault("jobs_inconclusive", 0)
+        check.coverage["jobs_inconclusive"] += len(dead)
+    return out
 
 
 def read_ndjson(path):
